@@ -520,7 +520,7 @@ theorem nextShuffle_spec {n : Nat} {s : St} {is : List Nat} {s' : St} (h : nextS
   · exact ((fail_ok _ _ _).mp h2).elim
 
 theorem nextUniform_spec {lo hi : Q} {s : St} {q : Q} {s' : St} (h : nextUniform lo hi s = .ok (q, s')) :
-    lo.le q = true ∧ q.le hi = true ∧ s'.nextUid = s.nextUid := by
+    qle lo q = true ∧ qle q hi = true ∧ s'.nextUid = s.nextUid := by
   unfold nextUniform at h
   rw [bind_ok] at h
   obtain ⟨e, s1, h1, h2⟩ := h
